@@ -114,11 +114,18 @@ func (e *env) evalKW(c Case) []finding {
 	if err != nil {
 		return []finding{{"machinery/reference-wrap-failed", err.Error()}}
 	}
-	mc := c.Mut.apply(rc)
+	mc := rc
+	if c.Mut.Comp == "integrity-value" {
+		if mc, err = wrapWithMutatedIV(kek, p, c.Mut); err != nil {
+			return []finding{{"machinery/reference-wrap-failed", err.Error()}}
+		}
+	} else {
+		mc = c.Mut.apply(rc)
+	}
 	e.st[stMutation]++
 	for _, cd := range judgeMutated(callUnwrap(blk, clip(mc)), p) {
 		if cd.name == "" {
-			cd.name = "modified-wrapped-key-accepted"
+			cd.name = "modified-" + c.Mut.Comp + "-accepted"
 		}
 		s.add(keyFor("aeskw.Unwrap", kwAlg, cd), "aeskw.Unwrap %s mutation %s: %s", what, c.Mut, cd.msg)
 	}
